@@ -82,7 +82,7 @@ def _load_nontrivial(case, impl):
         return " B 0 " not in impl
     return it[:1] == ["perr"] and len(it) > 2 and it[2] not in ("0", "1")
 
-LOAD_RULE = ("2000 (quick) / 40000 (thorough) abstract manifests (bindings, rules with every whitelisted variable, build "
+LOAD_RULE = ("5000 (quick) / 40000 (thorough) abstract manifests (bindings, rules with every whitelisted variable, build "
              "statements with all emptiness patterns of the 4 input and 2 output sections, escapes $ $: $$, UTF-8, "
              "defaults, pools, include/subninja files, comments) each rendered under a plain and a noisy spelling "
              "(extra blanks, $-newline continuations wherever the grammar allows incl. inside tokens, $x vs ${x}, "
@@ -105,7 +105,7 @@ def _hist_nontrivial(case, impl):
     with_starts = sum(1 for x in invs if " B " in x)
     return with_starts >= 2 and with_starts < len(invs)
 
-HIST_RULE = ("400 (quick) / 8000 (thorough) random projects (2-6 steps over 4 sources and 3 headers: plain, gcc-depfile, "
+HIST_RULE = ("1200 (quick) / 8000 (thorough) random projects (2-6 steps over 4 sources and 3 headers: plain, gcc-depfile, "
              "msvc /showIncludes, rspfile and phony steps; explicit/implicit/order-only/validation inputs; optional "
              "manifest generator `build build.ninja: gen build.ninja.in`, or a generated fragment `include frag.ninja` with `build frag.ninja: gen frag.ninja.in` and `build build.ninja: phony frag.ninja`) each with a history of 5-15 operations: invoke "
              "(-j 1-3, -k none/1-2, target subsets and spellings, occasional -t restat, immediate re-invocation), edit / "
